@@ -176,6 +176,20 @@ def gen(c):
                 add({"op": "ecdh", "d": i2b(da), "peer": b"\x04" + i2b(PB[0]) + i2b(PB[1])}, {"kind": "ecdh", "what": "ecdh:%d:%d" % (i, j), "peerok": True, "qx": list(i2b(PB[0])), "qy": list(i2b(PB[1])), "x2": list(i2b(S[0])), "y2": list(i2b(S[1])), **pt_w(*PB)})
                 PA = mul(da, G)
                 add({"op": "ecdh", "d": i2b(db), "peer": b"\x04" + i2b(PA[0]) + i2b(PA[1])}, {"kind": "ecdh", "what": "ecdh:%d:%d:sym" % (j, i), "peerok": True, "qx": list(i2b(PA[0])), "qy": list(i2b(PA[1])), "x2": list(i2b(S[0])), "y2": list(i2b(S[1])), **pt_w(*PA)})
+    # private keys of particular shapes (the last admissible values below n, whose windowed recoding ends in a borrow chain; small values; single bits; limb
+    # boundaries): the shared point with one fixed peer, and the decryption of a ciphertext the reference made for that key
+    dshapes = [n - 2 - i for i in range(14)] + [2, 3, 7, 8, 15, 16, 17, 31, 33, 2 ** 64 - 1, 2 ** 64, 2 ** 64 + 1, 2 ** 128 + 1, 2 ** 192, 2 ** 255, 2 ** 255 + 2 ** 64, (2 ** 256 // 3) % n, (2 ** 256 // 5) % n]
+    if c.quick:
+        dshapes = dshapes[:14] + dshapes[14::2]
+    dbf = rng.randrange(1, n - 1); PBf = mul(dbf, G)
+    for ds in dshapes:
+        S = mul(ds, PBf)
+        add({"op": "ecdh", "d": i2b(ds), "peer": b"\x04" + i2b(PBf[0]) + i2b(PBf[1])}, {"kind": "ecdh", "what": "ecdh:dshape:%s" % (("n-%d" % (n - ds)) if n - ds < 100 else hex(ds)[:14]), "peerok": True, "qx": list(i2b(PBf[0])), "qy": list(i2b(PBf[1])),
+                                                                                          "x2": list(i2b(S[0])), "y2": list(i2b(S[1])), **pt_w(PBf[0], PBf[1])})
+        kk_ = rng.randrange(1, n - 1); Pd = mul(ds, G); S2 = mul(kk_, Pd); mm = rb(23)
+        t_ = kdf(i2b(S2[0]) + i2b(S2[1]), len(mm))
+        ctd = ct_der(mul(kk_, G), sm3(i2b(S2[0]) + mm + i2b(S2[1])), bytes(u ^ v for u, v in zip(mm, t_)))
+        add({"op": "decrypt", "iface": "der", "d": i2b(ds), "ct": ctd}, decrypt_case(ds, ctd, "dshape:%s" % (("n-%d" % (n - ds)) if n - ds < 100 else hex(ds)[:14]), "der"))
     # the peer's share in compressed form (02 / 03 || x): same point, same shared secret -- both parities, and the wrong parity byte gives the other point
     for i in range(6 if c.quick else 24):
         da, db = rng.randrange(1, n - 1), rng.randrange(1, n - 1)
